@@ -47,11 +47,17 @@ BOOSTS = {
 }
 
 
-def f_invariance(system, which, bsys=None):
+def f_invariance(system, which, bsys=None, spacelike=False):
     def fn(R):
         lib = R.lib
-        a = R.vec(system, "1")
+        a = R.vec(system, "1", tau_nonneg=not spacelike)
         w = R.vec(("xy", "z", "t"), "2")
+        if spacelike:
+            # negative stored tau = spacelike vector; representable when mag^2 >= tau^2
+            _, co = lanes.stored(a)
+            R.assume(co[3] < 0)
+            c3 = spec.decode(lib, system[:2], co[:3])
+            R.assume(c3[0] * c3[0] + c3[1] * c3[1] + c3[2] * c3[2] - co[3] * co[3] > 0)
         ca, cw = spec.cart(lib, a), spec.cart(lib, w)
         if which in BOOSTS:
             op = BOOSTS[which](R)
@@ -61,12 +67,19 @@ def f_invariance(system, which, bsys=None):
         else:
             p, pc = _booster(R, "p4", bsys)
             op = lambda v: v.boost_p4(p)
+        if spacelike:
+            # a boost can turn the time component of a spacelike vector negative, which tau storage
+            # (t >= 0 by convention) cannot represent: assume the exact result is representable
+            rac = spec.cart(lib, op(R.build(("xy", "z", "t"), ca)))
+            R.assume(rac[3] > 0)
         ra, rw = op(a), op(w)
         cra, crw = spec.cart(lib, ra), spec.cart(lib, rw)
         goals = [("minkowski-product", G.eq(laws.mdot(cra, crw), laws.mdot(ca, cw)))]
         if system[2] == "tau":
             # proper time of a tau-stored vector is the stored value itself
             goals.append(("tau-untouched", G.eq(ra.tau, a.tau)))
+            if spacelike:
+                goals.append(("tau2", G.eq(laws.mdot(cra, cra), laws.mdot(ca, ca))))
         else:
             goals.append(("tau2", G.eq(laws.mdot(cra, cra), laws.mdot(ca, ca))))
         goals.append(("dimension", G.true(len(lanes.stored(ra)[0]) == 3, "boosted vector stays 4D")))
@@ -208,6 +221,11 @@ def families(tier="quick"):
             add(f"invariance/boost_p4/{n}|{lanes.sysname(b4)}", f_invariance(s, "boost_p4", b4), [K + "boost_p4"])
             add(f"p4-vs-beta3/{n}|{lanes.sysname(b4)}", f_p4_vs_beta3(s, b4), [K + "boost_p4", K + "boost_beta3", K + "to_beta3", "vector._methods.Lorentz.boost"])
         add(f"inverse-beta3/{n}|xy_z", f_inverse_beta3(s, ("xy", "z")), [K + "boost_beta3"])
+        if s[2] == "tau":
+            for w in ("boostX", "boostZ"):
+                add(f"invariance-spacelike/{w}/{n}", f_invariance(s, w, spacelike=True), [K + f"{w}_beta", K + "transform4D", K + "t"])
+            add(f"invariance-spacelike/boost_beta3/{n}|xy_z", f_invariance(s, "boost_beta3", ("xy", "z"), spacelike=True), [K + "boost_beta3", K + "transform4D"])
+            add(f"invariance-spacelike/boost_p4/{n}|xy_z_t", f_invariance(s, "boost_p4", ("xy", "z", "t"), spacelike=True), [K + "boost_p4", K + "transform4D"])
         for ax in "XYZ":
             add(f"inverse/boost{ax}/{n}", f_inverse_axis(s, ax), [K + f"boost{ax}_beta"])
             add(f"compose/boost{ax}/{n}", f_compose_axis(s, ax), [K + f"boost{ax}_beta"])
